@@ -81,6 +81,12 @@ T.update({
  'C18-c': ('C18', 'partial/idn/eav.c: GENERIC_RESTRICTED tested against the GENERIC bit (libidn back end only)', 'libidn build, allow_tld with exactly one of the two bits, TLD biz/name/pro'),
  'C19-c': ('C19', 'partial/idn2/is_utf8_domain.c: conversion failure detected by domain == NULL instead of the return code', 'an IDN failure that arrives together with an output buffer: treated as success'),
 })
+# round 9
+T.update({
+ 'C01-d': ('C01', 'include/eav/private_email.h check_ip: tag compared with strncmp instead of strncasecmp', 'an address literal whose tag is a case variant of "IPv6:" ([ipv6:2001:db8::1]): rejected'),
+ 'C16-d': ('C16', 'include/eav/private_email.h check_ip: family of an untagged digit-led literal chosen by "contains a dot" instead of "contains a colon"', 'an accepted untagged IPv6 literal with a dotted-quad tail ([1::ffff:1.2.3.4]): flagged is_ipv4'),
+ 'C07-d': ('C07', 'src/is_tld.c: first octet compared case-sensitively before strncasecmp on the rest', 'a listed TLD whose first letter is upper case (iana.Org): invalid TLD in the ASCII modes'),
+})
 # round 8 (reject-side changes and the output part of the CLI)
 T.update({
  'C04-e': ('C04', 'src/is_ascii_domain.c: label-length check added to the hyphen branch with an off-by-one bound', 'a 63-character label whose 62nd character is a hyphen: rejected as too long'),
@@ -127,6 +133,7 @@ for sid, (prop, change, needs) in T.items():
         'C17-b': 'missed (check passed, exit 0) by the machinery as it was when the seed was written; the contract gap it exposed was closed (DESIGN.md 11.4) and the log kept here is the run after that',
         'C20-a': 'missed (check passed) by the first version of job cli_parse_line: its strlen model returned the EXPECTED length instead of the position of a NUL in the buffer as the body left it, so a NUL written in the wrong place went unnoticed; the model now returns a prophesied index at which there is a NUL and the obligations say that this place is the terminator or a NUL of the line as read; the bounded jobs got an exact strlen.  The log kept here is the run after that',
         'C05-d': 'missed (check passed) twice: by the machinery as it was when the seed was written (no obligation justified an early NO of is_ipv6), and by the first version of the reject-direction postcondition, in which a dot counted as a dead step of the hex-group automaton and so justified every NO at a dot; a dot is now justified only where no dotted quad may start.  The log kept here is the run after that',
+        'C01-d': 'missed by C01\'s quick tier as it was when the seed was written (the address-literal jobs were in its thorough tier; the C05 check, whose quick tier has them, refuted it: is_822_email.postcondition.14); the four literal jobs were moved into C01\'s quick tier.  The replay oracle leaves the case of the tag open (the property writes the tag as \'IPv6:\'; RFC 5321 ABNF literals are case-insensitive), hence no-failing-input-found',
         'C12-c': 'missed (check passed) by the machinery as it was when the seed was written: the conditions of the two dot codes overlapped for a leading double dot; the contracts now tell them apart by position and the log kept here is the run after that',
         'C15-c': 'missed by C15\'s quick tier as it was when the seed was written (no address-literal job in it; the C05/C16 checks did refute it); email_822_literal was added to C15\'s quick tier',
         'C01-c': 'verifier undecided (new loop without contract); reported as VIOLATION through the replay-oracle fallback once the oracle had a 6531 e-mail kind (concrete input u@d.xn--0, tld_check off)',
